@@ -32,6 +32,7 @@ DBLOCKS = [
     ("- [a]: /d4", 1, [(0, 1)]), ("[É]: /d5 '\nmulti\nline'", 1, [(0, 3)]), ("[a\n b]:\n/d6", 1, [(0, 3)]),
     ("[b]: /d7\n[ss]: /d8", 2, [(0, 1), (1, 1)]), ("para\n[a]: /not-a-definition", 0, []),
     # a title whose first line ends in a backslash (a literal backslash followed by the line break)
+    ("[q]: /d12 \"see [1]\"", 1, [(0, 1)]), ("[q2]: /list[0]\n[q3]: <x y]z> 'w]'", 2, [(0, 1), (1, 1)]),
     ("[É]: /d9 \"x\\\ny\"", 1, [(0, 2)]), ("[t]: /d10 'p\\\nq\\\nr'\n[b]: /d11", 2, [(0, 3), (3, 1)]),
 ]
 RDEFS = ["[a]: /r1", "[A]: /r2 'T'", "[ a  b]: /r3", "[ß]: /r4", "[SS]: /r5", "[é]: /r6", "[b]: </r 7> (t)"]
@@ -212,11 +213,24 @@ def sub_ws(md, acc):
 
 
 # ---- (3) reference form vs inline form ---------------------------------------------------------------------
-DEST = ["u", "/a b", "<a b>", "a(b)", "a\\)b", "&amp;", "%20", "é", "<>", "a\\*b", "a&#42;b", "javascript:x", "#f", "?q=1&r",
+DEST = ["/l[0]", "<x y]z>", "u", "/a b", "<a b>", "a(b)", "a\\)b", "&amp;", "%20", "é", "<>", "a\\*b", "a&#42;b", "javascript:x", "#f", "?q=1&r",
         "a\"b", "<a\\>b>", ""]
-TITLE = [None, '"t"', "'t'", "(t)", '"a\\"b"', '"&amp;"', '"a\nb"', '"é<>"', "'it\\'s'", '""', '"(x)"', "(a\\)b)",
+TITLE = [None, '"s [1]"', "'w]'", '"t"', "'t'", "(t)", '"a\\"b"', '"&amp;"', '"a\nb"', '"é<>"', "'it\\'s'", '""', '"(x)"', "(a\\)b)",
          '"a\\\nb"', "'a\\\n\\\nb'"]
 TEXT = ["x", "*x*", "`c`", "a\\]b", "![i](j)", "&amp;", "[y]"]
+
+
+_hook_md = {}
+
+
+def hooked(ci):
+    """an instance whose URL policy was customised through the documented hooks (attributes of the instance)"""
+    if ci not in _hook_md:
+        md = C.build(CFGS[ci], fresh=True)
+        md.validateLink = lambda url: not url.startswith("/blocked")
+        md.normalizeLink = lambda url: "https://cdn.example" + url if url.startswith("/") else url.replace(" ", "%20")
+        _hook_md[ci] = md
+    return _hook_md[ci]
 
 
 def sub_forms(md, ci, text, dest, title, acc):
@@ -374,11 +388,12 @@ def run_shard(sh, acc):
     elif kind == "forms":
         _, ci, ti = sh
         md = C.build(CFGS[ci])
-        for dest, title in itertools.product(DEST, TITLE):
-            r, inl, ref = sub_forms(md, ci, TEXT[ti], dest, title, acc)
-            if r:
-                acc.violation("forms", r.split(":")[0] + ":" + r.split(":")[1][:40],
-                              {"cfg": CFGS[ci], "text": TEXT[ti], "dest": dest, "title": title}, r + f" ({inl!r} vs {ref!r})")
+        for dest, title in itertools.product(DEST + ["/blocked/x", "javascript:x2"], TITLE):
+            for which, m in (("", md), ("hooks", hooked(ci))):
+                r, inl, ref = sub_forms(m, ci, TEXT[ti], dest, title, acc)
+                if r:
+                    acc.violation("forms", (which + " " + r.split(":")[0] + ":" + r.split(":")[1][:40]).strip(),
+                                  {"cfg": CFGS[ci], "text": TEXT[ti], "dest": dest, "title": title, "hooks": which}, r + f" ({inl!r} vs {ref!r})")
         acc.sample("forms", {"cfg": CFGS[ci], "inline": f"[{TEXT[ti]}](/a b \"t\")", "reference": f"[{TEXT[ti]}][r]\n\n[r]: /a b \"t\""}, 1)
 
 
@@ -413,6 +428,8 @@ def check_case(case, acc):
             acc.violation("tail", "a reference link depends on the text that follows it", {k: case[k] for k in ("cfg", "kind", "tail", "rd")}, r)
     elif sub == "forms":
         md = C.build(case["cfg"], fresh=True)
+        if case.get("hooks"):
+            md = hooked(CFGS.index(case["cfg"]) if case["cfg"] in CFGS else 0)
         r, inl, ref = sub_forms(md, 0, case["text"], case["dest"], case["title"], acc)
         if r:
             acc.violation(sub, r.split(":")[0] + ":" + r.split(":")[1][:40], {k: case[k] for k in ("cfg", "text", "dest", "title")}, r)
